@@ -22,6 +22,7 @@ import Tengo.Drivers.C08
 import Tengo.Drivers.C04
 import Tengo.Drivers.VM
 import Tengo.Drivers.Comp
+import Tengo.Drivers.C07VM
 /-!
 Line-protocol driver: one S-expression `(cmd arg…)` per input line, one answer
 line per input line. The only `partial def` of the project is the IO loop.
@@ -51,7 +52,8 @@ def allHandlers : List (String × (List Sexp → String)) :=
   Tengo.Drivers.C06.handlers ++
   Tengo.Drivers.C08.handlers ++
   Tengo.Drivers.C04.handlers ++
-  Tengo.Drivers.Comp.handlers
+  Tengo.Drivers.Comp.handlers ++
+  Tengo.Drivers.C07VM.handlers
 
 def answer (line : String) : String :=
   match Sexp.parse line with
